@@ -1,0 +1,329 @@
+//go:build verif
+
+package fp
+
+// Contracts for the methods of Option, Try and the left/right implementations
+// of Either (option.go, try.go, either.go), checked by /verif/govc.
+// Comment-only file.
+//
+// Property C02: successes pass through Recover*/OrElse*/Or* untouched and the
+// handler / supplier is not invoked; on failure the handler is invoked exactly
+// once with the operand's own error value; failures pass through
+// Map/FlatMap/Filter unchanged and the continuation is not invoked.
+
+// ---------------------------------------------------------------------------
+// Option: constructors and observers
+
+//@ func Some(v) result
+//@   prop C02
+//@   ensures result.IsDefined() && !result.IsEmpty() && Eq(result.Get(), v)
+//@   ensures !Eq(result, None[T]())
+//
+//@ func None() result
+//@   prop C02
+//@   ensures !result.IsDefined() && result.IsEmpty()
+//@   ensures Eq(result, Option[T]{})
+//
+//@ func (Option).IsDefined(r) result
+//@   prop C02
+//@   ensures result == !Eq(r, None[T]())
+//@   ensures result ==> Eq(r, Some(r.Get()))
+//
+//@ func (Option).IsEmpty(r) result
+//@   prop C02
+//@   ensures result == Eq(r, None[T]())
+//@   ensures result == !r.IsDefined()
+//
+//@ func (Option).Get(r) result
+//@   prop C02
+//@   requires r.IsDefined()
+//@   ensures Eq(Some(result), r)
+//
+//@ lemma optionGetNonePanics[T any](r Option[T])
+//@   prop C02
+//@   requires !r.IsDefined()
+//@   ensures Panics(r.Get())
+//@   ensures Panics(None[T]().Get())
+//
+//@ lemma optionGetSome[T any](v T)
+//@   prop C02
+//@   ensures !Panics(Some(v).Get()) && Eq(Some(v).Get(), v)
+//
+//@ func (Option).Unapply(r) (v, ok)
+//@   prop C02
+//@   ensures ok == r.IsDefined()
+//@   ensures ok ==> Eq(v, r.Get())
+//@   ensures !ok ==> Eq(v, Zero[T]())
+//
+//@ func (Option).Foreach(r, f)
+//@   prop C02
+//@   ensures r.IsDefined() ==> Calls(1)
+//@   ensures !r.IsDefined() ==> NoCalls()
+//
+//@ lemma optionForeachDef[T any](r Option[T], f func(T))
+//@   prop C02
+//@   ensures EqT(func() bool { r.Foreach(f); return true }(), func() bool { if r.IsDefined() { f(r.Get()) }; return true }())
+
+// ---------------------------------------------------------------------------
+// Option: continuations run only on Some, exactly once, None passes through
+
+//@ func (Option).Map(r, mf) result
+//@   prop C01 C02
+//@   ensures r.IsDefined() ==> Eq(result, Some(mf(r.Get()))) && Calls(1)
+//@   ensures !r.IsDefined() ==> Eq(result, None[T]()) && NoCalls()
+//
+//@ func (Option).FlatMap(r, mf) result
+//@   prop C01 C02
+//@   ensures r.IsDefined() ==> Eq(result, mf(r.Get())) && Calls(1)
+//@   ensures !r.IsDefined() ==> Eq(result, None[T]()) && NoCalls()
+//
+//@ func (Option).Filter(r, p) result
+//@   prop C02
+//@   ensures r.IsDefined() && p(r.Get()) ==> Eq(result, r) && Calls(1)
+//@   ensures r.IsDefined() && !p(r.Get()) ==> Eq(result, None[T]()) && Calls(1)
+//@   ensures !r.IsDefined() ==> Eq(result, None[T]()) && NoCalls()
+//
+//@ func (Option).FilterNot(r, p) result
+//@   prop C02
+//@   ensures r.IsDefined() && !p(r.Get()) ==> Eq(result, r) && Calls(1)
+//@   ensures r.IsDefined() && p(r.Get()) ==> Eq(result, None[T]()) && Calls(1)
+//@   ensures !r.IsDefined() ==> Eq(result, None[T]()) && NoCalls()
+//
+//@ func (Option).Exists(r, p) result
+//@   prop C02
+//@   ensures r.IsDefined() ==> result == p(r.Get()) && Calls(1)
+//@   ensures !r.IsDefined() ==> !result && NoCalls()
+//
+//@ func (Option).ForAll(r, p) result
+//@   prop C02
+//@   ensures r.IsDefined() ==> result == p(r.Get()) && Calls(1)
+//@   ensures !r.IsDefined() ==> result && NoCalls()
+
+// ---------------------------------------------------------------------------
+// Option: alternatives are used only on None; Some passes through untouched
+
+//@ func (Option).OrElse(r, t) result
+//@   prop C02
+//@   ensures r.IsDefined() ==> Eq(result, r.Get())
+//@   ensures !r.IsDefined() ==> Eq(result, t)
+//
+//@ func (Option).OrZero(r) result
+//@   prop C02
+//@   ensures r.IsDefined() ==> Eq(result, r.Get())
+//@   ensures !r.IsDefined() ==> Eq(result, Zero[T]())
+//
+//@ func (Option).OrElseGet(r, f) result
+//@   prop C02
+//@   ensures r.IsDefined() ==> Eq(result, r.Get()) && NoCalls()
+//@   ensures !r.IsDefined() ==> Eq(result, f()) && Calls(1)
+//
+//@ func (Option).Or(r, f) result
+//@   prop C02
+//@   ensures r.IsDefined() ==> Eq(result, r) && NoCalls()
+//@   ensures !r.IsDefined() ==> Eq(result, f()) && Calls(1)
+//
+//@ func (Option).OrOption(r, v) result
+//@   prop C02
+//@   ensures r.IsDefined() ==> Eq(result, r)
+//@   ensures !r.IsDefined() ==> Eq(result, v)
+//
+//@ func (Option).OrPtr(r, v) result
+//@   prop C02
+//@   ensures r.IsDefined() ==> Eq(result, r)
+//@   ensures !r.IsDefined() && v == nil ==> Eq(result, None[T]())
+//@   ensures !r.IsDefined() && v != nil ==> Eq(result, Some(*v))
+//
+//@ func (Option).Recover(r, f) result
+//@   prop C02
+//@   ensures r.IsDefined() ==> Eq(result, r) && NoCalls()
+//@   ensures !r.IsDefined() ==> Eq(result, Some(f())) && Calls(1)
+
+// ---------------------------------------------------------------------------
+// Try: constructors and observers
+
+//@ func Success(t) result
+//@   prop C02
+//@   ensures result.IsSuccess() && !result.IsFailure() && Eq(result.Get(), t)
+//@   ensures Eq(result.Failed(), Failure[error](ErrTryNotFailed))
+//
+//@ func Failure(err) result
+//@   prop C02
+//@   requires err != nil
+//@   ensures result.IsFailure() && !result.IsSuccess()
+//@   ensures Eq(result.Failed(), Success(err))
+//@   ensures result.Failed().Get() == err
+//
+//@ func (Try).IsSuccess(r) result
+//@   prop C02
+//@   ensures result ==> Eq(r, Success(r.Get()))
+//@   ensures !result ==> Eq(r, Failure[T](r.Failed().Get()))
+//
+//@ func (Try).IsFailure(r) result
+//@   prop C02
+//@   ensures result == !r.IsSuccess()
+//@   ensures result ==> Eq(r, Failure[T](r.Failed().Get()))
+//@   ensures !result ==> Eq(r, Success(r.Get()))
+//
+//@ func (Try).Get(r) result
+//@   prop C02
+//@   requires r.IsSuccess()
+//@   ensures Eq(Success(result), r)
+//
+//@ lemma tryGetFailurePanics[T any](r Try[T], err error)
+//@   prop C02
+//@   requires err != nil
+//@   ensures r.IsFailure() ==> Panics(r.Get())
+//@   ensures Panics(Failure[T](err).Get())
+//
+//@ lemma tryGetSuccess[T any](v T)
+//@   prop C02
+//@   ensures !Panics(Success(v).Get()) && Eq(Success(v).Get(), v)
+//
+//@ func (Try).Failed(r) result
+//@   prop C02
+//@   ensures r.IsSuccess() ==> Eq(result, Failure[error](ErrTryNotFailed))
+//@   ensures r.IsFailure() ==> result.IsSuccess() && result.Get() != nil && Eq(r, Failure[T](result.Get()))
+//
+//@ func (Try).Unapply(r) (v, err)
+//@   prop C02
+//@   ensures r.IsSuccess() ==> Eq(v, r.Get()) && err == nil
+//@   ensures r.IsFailure() ==> Eq(v, Zero[T]()) && err == r.Failed().Get()
+//
+//@ func (Try).Foreach(r, f)
+//@   prop C02
+//@   ensures r.IsSuccess() ==> Calls(1)
+//@   ensures !r.IsSuccess() ==> NoCalls()
+//
+//@ lemma tryForeachDef[T any](r Try[T], f func(T))
+//@   prop C02
+//@   ensures EqT(func() bool { r.Foreach(f); return true }(), func() bool { if r.IsSuccess() { f(r.Get()) }; return true }())
+
+// ---------------------------------------------------------------------------
+// Try: continuations run only on Success, exactly once; a Failure passes
+// through carrying its own error
+
+//@ func (Try).Map(r, mf) result
+//@   prop C01 C02
+//@   ensures r.IsSuccess() ==> Eq(result, Success(mf(r.Get()))) && Calls(1)
+//@   ensures r.IsFailure() ==> Eq(result, Failure[T](r.Failed().Get())) && Eq(result, r) && NoCalls()
+//
+//@ func (Try).FlatMap(r, mf) result
+//@   prop C01 C02
+//@   ensures r.IsSuccess() ==> Eq(result, mf(r.Get())) && Calls(1)
+//@   ensures r.IsFailure() ==> Eq(result, Failure[T](r.Failed().Get())) && Eq(result, r) && NoCalls()
+//
+//@ func (Try).MapError(r, mf) result
+//@   prop C02
+//@   ensures r.IsSuccess() ==> Eq(result, r) && NoCalls()
+//@   ensures r.IsFailure() ==> Eq(result, Failure[T](mf(r.Failed().Get()))) && Calls(1)
+
+// ---------------------------------------------------------------------------
+// Try: successes pass through untouched, handlers run only on failure, exactly
+// once, with the operand's own error
+
+//@ func (Try).OrElse(r, t) result
+//@   prop C02
+//@   ensures r.IsSuccess() ==> Eq(result, r.Get())
+//@   ensures r.IsFailure() ==> Eq(result, t)
+//
+//@ func (Try).OrZero(r) result
+//@   prop C02
+//@   ensures r.IsSuccess() ==> Eq(result, r.Get())
+//@   ensures r.IsFailure() ==> Eq(result, Zero[T]())
+//
+//@ func (Try).OrElseGet(r, f) result
+//@   prop C02
+//@   ensures r.IsSuccess() ==> Eq(result, r.Get()) && NoCalls()
+//@   ensures r.IsFailure() ==> Eq(result, f()) && Calls(1)
+//
+//@ func (Try).Or(r, f) result
+//@   prop C02
+//@   ensures r.IsSuccess() ==> Eq(result, r) && NoCalls()
+//@   ensures r.IsFailure() ==> Eq(result, f()) && Calls(1)
+//
+//@ func (Try).OrTry(r, v) result
+//@   prop C02
+//@   ensures r.IsSuccess() ==> Eq(result, r)
+//@   ensures r.IsFailure() ==> Eq(result, v)
+//
+//@ func (Try).Recover(r, f) result
+//@   prop C02
+//@   ensures r.IsSuccess() ==> Eq(result, r) && NoCalls()
+//@   ensures r.IsFailure() ==> Eq(result, Success(f(r.Failed().Get()))) && Calls(1)
+//
+//@ func (Try).RecoverWith(r, f) result
+//@   prop C02
+//@   ensures r.IsSuccess() ==> Eq(result, r) && NoCalls()
+//@   ensures r.IsFailure() ==> Eq(result, f(r.Failed().Get())) && Calls(1)
+//
+//@ func (Try).RecoverCase(r, isDefinedAt, then) result
+//@   prop C02
+//@   ensures r.IsSuccess() ==> Eq(result, r) && NoCalls()
+//@   ensures r.IsFailure() && isDefinedAt(r.Failed().Get()) ==> Eq(result, Success(then(r.Failed().Get()))) && Calls(2)
+//@   ensures r.IsFailure() && !isDefinedAt(r.Failed().Get()) ==> Eq(result, r) && Calls(1)
+//
+//@ func (Try).RecoverCaseWith(r, isDefinedAt, then) result
+//@   prop C02
+//@   ensures r.IsSuccess() ==> Eq(result, r) && NoCalls()
+//@   ensures r.IsFailure() && isDefinedAt(r.Failed().Get()) ==> Eq(result, then(r.Failed().Get())) && Calls(2)
+//@   ensures r.IsFailure() && !isDefinedAt(r.Failed().Get()) ==> Eq(result, r) && Calls(1)
+//
+//@ lemma tryRecoverCaseOrder[T any](r Try[T], isDefinedAt func(error) bool, then func(error) T, thenWith func(error) Try[T])
+//@   prop C02
+//@   requires r.IsFailure()
+//@   ensures EqT(r.RecoverCase(isDefinedAt, then), func() Try[T] { e := r.Failed().Get(); if isDefinedAt(e) { return Success(then(e)) }; return Failure[T](e) }())
+//@   ensures EqT(r.RecoverCaseWith(isDefinedAt, thenWith), func() Try[T] { e := r.Failed().Get(); if isDefinedAt(e) { return thenWith(e) }; return Failure[T](e) }())
+
+// ---------------------------------------------------------------------------
+// Either
+
+//@ func Left(l) result
+//@   prop C02
+//@   ensures result.IsLeft() && !result.IsRight() && Eq(result.Left(), l)
+//
+//@ func Right(r) result
+//@   prop C02
+//@   ensures result.IsRight() && !result.IsLeft() && Eq(result.Get(), r)
+//
+//@ lemma eitherWrongSidePanics[L, R any](l L, r R)
+//@   prop C02
+//@   ensures Panics(Left[L, R](l).Get())
+//@   ensures Panics(Right[L, R](r).Left())
+//@   ensures !Panics(Left[L, R](l).Left()) && !Panics(Right[L, R](r).Get())
+//
+//@ func (left).IsLeft(r) result
+//@   prop C02
+//@   ensures result
+//
+//@ func (left).IsRight(r) result
+//@   prop C02
+//@   ensures !result
+//
+//@ func (left).Left(r) result
+//@   prop C02
+//@   ensures Eq(Left[L, R](result), Either[L, R](r))
+//
+//@ func (left).Recover(r, f) result
+//@   prop C02
+//@   ensures Eq(result, Right[L, R](f())) && Calls(1)
+//
+//@ func (right).IsLeft(r) result
+//@   prop C02
+//@   ensures !result
+//
+//@ func (right).IsRight(r) result
+//@   prop C02
+//@   ensures result
+//
+//@ func (right).Get(r) result
+//@   prop C02
+//@   ensures Eq(Right[L, R](result), Either[L, R](r))
+//
+//@ func (right).Recover(r, f) result
+//@   prop C02
+//@   ensures Eq(result, Either[L, R](r)) && NoCalls()
+//
+//@ lemma eitherRecover[L, R any](l L, r R, f func() R)
+//@   prop C02
+//@   ensures EqT(Right[L, R](r).Recover(f), Right[L, R](r))
+//@   ensures EqT(Left[L, R](l).Recover(f), Right[L, R](f()))
